@@ -113,27 +113,6 @@ impl Stats {
         self.skipped_margin += o.skipped_margin;
         self.exhaustive_parts.extend(o.exhaustive_parts);
     }
-
-    fn record(&mut self, case: &Case, obs: Obs, max_samples: usize) {
-        self.evaluations += 1;
-        let fam = self.per_family.entry(case.family.to_string()).or_default();
-        fam.0 += 1;
-        if obs.nontrivial {
-            fam.1 += 1;
-            let fresh = self.nontrivial.insert(ser::case_digest(case));
-            if fresh && self.samples.len() < max_samples && crate::geom::mp_edges(&case.a).len() + crate::geom::mp_edges(&case.b).len() <= 24 {
-                let mut s = ser::case_sample(case);
-                s["classes"] = json!(obs.classes.clone());
-                self.samples.push(s);
-            }
-        }
-        for c in obs.classes {
-            *self.classes.entry(c.to_string()).or_default() += 1;
-        }
-        for (k, n) in obs.counters {
-            *self.counters.entry(k.to_string()).or_default() += n;
-        }
-    }
 }
 
 #[derive(Clone, Debug)]
@@ -188,11 +167,89 @@ pub fn threads() -> usize {
     std::env::var("VERIF_THREADS").ok().and_then(|s| s.parse().ok()).unwrap_or(16)
 }
 
-/// Random phase: every family is split into chunks; chunk c of family f runs its own TestRunner seeded from
-/// (VERIF_SEED, property, family, c), so the set of generated cases does not depend on thread scheduling.
-pub fn run_random(id: &str, seed: u64, families: &[FamilyPlan], check: &CheckFn, stats: &mut Stats, violations: &mut Vec<Violation>) {
+/// result of evaluating one generated descriptor
+pub struct Eval {
+    pub obs: Obs,
+    pub result: Result<(), Failure>,
+    pub digest: u64,
+    pub family: &'static str,
+    /// small enough to be shown as a sample in the evidence
+    pub sample: Option<Value>,
+    pub skip: Option<Reject>,
+}
+
+impl Eval {
+    pub fn skipped(r: Reject) -> Eval {
+        Eval { obs: Obs::default(), result: Ok(()), digest: 0, family: "", sample: None, skip: Some(r) }
+    }
+}
+
+/// a generated domain: strategy, evaluation and replay serialisation of descriptors of type D
+pub struct Plan<'a, D> {
+    pub name: &'static str,
+    pub cases: u64,
+    pub strategy: Box<dyn Fn() -> BoxedStrategy<D> + Sync + 'a>,
+    /// evaluate a descriptor (second argument: a sample rendering is wanted)
+    pub eval: Box<dyn Fn(&D, bool) -> Eval + Sync + 'a>,
+    /// replay file content for a failing descriptor
+    pub replay: Box<dyn Fn(&D, &Failure) -> Value + Sync + 'a>,
+}
+
+impl Stats {
+    fn record_eval(&mut self, e: Eval, max_samples: usize) {
+        if let Some(r) = e.skip {
+            match r {
+                Reject::Margin => self.skipped_margin += 1,
+                Reject::Invalid(why) => {
+                    self.rejected_invalid += 1;
+                    if self.rejected_invalid_example.is_none() {
+                        self.rejected_invalid_example = Some(why);
+                    }
+                }
+            }
+            return;
+        }
+        self.evaluations += 1;
+        let fam = self.per_family.entry(e.family.to_string()).or_default();
+        fam.0 += 1;
+        if e.obs.nontrivial {
+            fam.1 += 1;
+            let fresh = self.nontrivial.insert(e.digest);
+            if fresh && self.samples.len() < max_samples {
+                if let Some(mut s) = e.sample {
+                    if let Value::Object(_) = s {
+                        s["classes"] = json!(e.obs.classes.clone());
+                    }
+                    self.samples.push(s);
+                }
+            }
+        }
+        for c in e.obs.classes {
+            *self.classes.entry(c.to_string()).or_default() += 1;
+        }
+        for (k, n) in e.obs.counters {
+            *self.counters.entry(k.to_string()).or_default() += n;
+        }
+    }
+}
+
+pub fn write_replay_value(property: &str, digest: u64, mut v: Value, f: &Failure) -> String {
+    let dir = format!("{}/replays", verif_root());
+    let _ = std::fs::create_dir_all(&dir);
+    v["property"] = json!(property);
+    v["properties"] = json!([property]);
+    v["clause"] = json!(f.clause);
+    v["detail"] = json!(f.detail);
+    let path = format!("{}/{}-{:016x}.json", dir, property, digest);
+    let _ = std::fs::write(&path, serde_json::to_string_pretty(&v).unwrap());
+    path
+}
+
+/// Random phase: every plan is split into chunks; chunk c of plan p runs its own TestRunner seeded from
+/// (VERIF_SEED, property, plan name, c), so the set of generated cases does not depend on thread scheduling.
+pub fn run_plans<D: std::fmt::Debug + Clone>(id: &str, seed: u64, plans: &[Plan<D>], stats: &mut Stats, violations: &mut Vec<Violation>) {
     let mut jobs: Vec<(usize, u64, u64)> = Vec::new();
-    for (fi, f) in families.iter().enumerate() {
+    for (fi, f) in plans.iter().enumerate() {
         if f.cases == 0 {
             continue;
         }
@@ -217,8 +274,7 @@ pub fn run_random(id: &str, seed: u64, families: &[FamilyPlan], check: &CheckFn,
                         break;
                     }
                     let (fi, chunk, n) = jobs[j];
-                    let fam = &families[fi];
-                    let (st, viol) = run_chunk(id, seed, fam, chunk, n, check, &stop, j == 0 || chunk == 0);
+                    let (st, viol) = run_chunk(id, seed, &plans[fi], chunk, n, &stop, chunk == 0);
                     if viol.is_some() {
                         stop.store(true, Ordering::SeqCst);
                     }
@@ -237,41 +293,23 @@ pub fn run_random(id: &str, seed: u64, families: &[FamilyPlan], check: &CheckFn,
     }
 }
 
-fn run_chunk(id: &str, seed: u64, fam: &FamilyPlan, chunk: u64, n: u64, check: &CheckFn, stop: &AtomicBool, sample: bool) -> (Stats, Option<Violation>) {
+fn run_chunk<D: std::fmt::Debug + Clone>(id: &str, seed: u64, plan: &Plan<D>, chunk: u64, n: u64, stop: &AtomicBool, sample: bool) -> (Stats, Option<Violation>) {
     let mut stats = Stats::default();
     let failed = std::cell::Cell::new(false);
     let config = Config { cases: n as u32, failure_persistence: None, max_shrink_iters: 2048, max_global_rejects: 1_000_000, ..Config::default() };
-    let rng = TestRng::from_seed(RngAlgorithm::ChaCha, &seed_bytes(seed, id, fam.name, chunk));
+    let rng = TestRng::from_seed(RngAlgorithm::ChaCha, &seed_bytes(seed, id, plan.name, chunk));
     let mut runner = TestRunner::new_with_rng(config, rng);
-    let strategy = (fam.strategy)();
+    let strategy = (plan.strategy)();
     let stats_cell = std::cell::RefCell::new(&mut stats);
     let result = runner.run(&strategy, |desc| {
         if stop.load(Ordering::Relaxed) && !failed.get() {
             return Ok(());
         }
-        let case = match desc.expand(fam.want_c) {
-            Ok(c) => c,
-            Err(Reject::Margin) => {
-                if !failed.get() {
-                    stats_cell.borrow_mut().skipped_margin += 1;
-                }
-                return Ok(());
-            }
-            Err(Reject::Invalid(why)) => {
-                if !failed.get() {
-                    let mut s = stats_cell.borrow_mut();
-                    s.rejected_invalid += 1;
-                    if s.rejected_invalid_example.is_none() {
-                        s.rejected_invalid_example = Some(format!("{}: {:?}", why, desc));
-                    }
-                }
-                return Ok(());
-            }
-        };
-        let mut obs = Obs::default();
-        let r = check(&case, &mut obs);
-        if !failed.get() {
-            stats_cell.borrow_mut().record(&case, obs, if sample { 2 } else { 0 });
+        let counting = !failed.get();
+        let mut e = (plan.eval)(&desc, counting && sample);
+        let r = std::mem::replace(&mut e.result, Ok(()));
+        if counting {
+            stats_cell.borrow_mut().record_eval(e, if sample { 2 } else { 0 });
         }
         match r {
             Ok(()) => Ok(()),
@@ -284,33 +322,72 @@ fn run_chunk(id: &str, seed: u64, fam: &FamilyPlan, chunk: u64, n: u64, check: &
     drop(stats_cell);
     let viol = match result {
         Ok(()) => None,
-        Err(TestError::Fail(_, desc)) => Some(report_failure(id, &desc, fam.want_c, check)),
+        Err(TestError::Fail(_, desc)) => {
+            // re-evaluate the shrunk descriptor outside proptest and write the replay file
+            let e = (plan.eval)(&desc, false);
+            let f = match e.result {
+                Err(f) => f,
+                Ok(()) => Failure::new("not-reproducible", "the shrunk case passed when re-evaluated outside the library"),
+            };
+            let mut v = (plan.replay)(&desc, &f);
+            if let Value::Object(_) = v {
+                v["descriptor"] = json!(format!("{:?}", desc));
+            }
+            let path = write_replay_value(id, e.digest, v, &f);
+            Some(Violation { replay: path, clause: f.clause, detail: f.detail })
+        }
         Err(TestError::Abort(why)) => {
-            eprintln!("proptest aborted in family {}: {}", fam.name, why);
+            eprintln!("proptest aborted in plan {}: {}", plan.name, why);
             None
         }
     };
     (stats, viol)
 }
 
-/// re-evaluate the shrunk descriptor outside proptest and write the replay file
-pub fn report_failure(id: &str, desc: &CaseDesc, want_c: bool, check: &CheckFn) -> Violation {
+/// evaluation of a geometric case descriptor with a property check
+pub fn eval_case(desc: &CaseDesc, want_c: bool, check: &CheckFn, want_sample: bool) -> Eval {
     match desc.expand(want_c) {
+        Err(Reject::Invalid(why)) => Eval::skipped(Reject::Invalid(format!("{}: {:?}", why, desc))),
+        Err(r) => Eval::skipped(r),
         Ok(case) => {
             let mut obs = Obs::default();
-            let f = match check(&case, &mut obs) {
-                Err(f) => f,
-                Ok(()) => Failure::new("not-reproducible", "the shrunk case passed when re-evaluated outside the library"),
-            };
-            let path = write_replay(id, &case, &f, json!({ "descriptor": format!("{:?}", desc) }));
-            Violation { replay: path, clause: f.clause, detail: f.detail }
+            let result = check(&case, &mut obs);
+            let small = crate::geom::mp_edges(&case.a).len() + crate::geom::mp_edges(&case.b).len() <= 24;
+            Eval { obs, result, digest: ser::case_digest(&case), family: case.family, sample: if want_sample && small { Some(ser::case_sample(&case)) } else { None }, skip: None }
         }
-        Err(e) => Violation { replay: String::from("(none)"), clause: "shrunk-case-rejected".into(), detail: format!("{:?}", e) },
     }
 }
 
+pub fn replay_case(desc: &CaseDesc, want_c: bool) -> Value {
+    match desc.expand(want_c) {
+        Ok(case) => ser::case_to_json(&case),
+        Err(e) => json!({ "rejected": format!("{:?}", e) }),
+    }
+}
+
+pub fn case_plans<'a>(families: &'a [FamilyPlan], check: &'a CheckFn) -> Vec<Plan<'a, CaseDesc>> {
+    families
+        .iter()
+        .map(|f| {
+            let want_c = f.want_c;
+            Plan {
+                name: f.name,
+                cases: f.cases,
+                strategy: Box::new(move || (f.strategy)()),
+                eval: Box::new(move |d: &CaseDesc, s: bool| eval_case(d, want_c, check, s)),
+                replay: Box::new(move |d: &CaseDesc, _f: &Failure| replay_case(d, want_c)),
+            }
+        })
+        .collect()
+}
+
+pub fn run_random(id: &str, seed: u64, families: &[FamilyPlan], check: &CheckFn, stats: &mut Stats, violations: &mut Vec<Violation>) {
+    let plans = case_plans(families, check);
+    run_plans(id, seed, &plans, stats, violations);
+}
+
 /// Deterministic enumeration of `total` descriptors (exhaustive spaces, pinned inputs), in parallel.
-pub fn run_indexed(id: &str, label: &str, total: u64, make: &(dyn Fn(u64) -> Option<CaseDesc> + Sync), want_c: bool, check: &CheckFn, stats: &mut Stats, violations: &mut Vec<Violation>, exhaustive: bool) {
+pub fn run_indexed_g<D: std::fmt::Debug + Clone>(id: &str, label: &str, total: u64, make: &(dyn Fn(u64) -> Option<D> + Sync), plan: &Plan<D>, stats: &mut Stats, violations: &mut Vec<Violation>, exhaustive: bool) {
     let next = AtomicUsize::new(0);
     let block = 256u64;
     let nblocks = ((total + block - 1) / block) as usize;
@@ -332,25 +409,17 @@ pub fn run_indexed(id: &str, label: &str, total: u64, make: &(dyn Fn(u64) -> Opt
                             Some(d) => d,
                             None => continue,
                         };
-                        let case = match desc.expand(want_c) {
-                            Ok(c) => c,
-                            Err(Reject::Margin) => {
-                                st.skipped_margin += 1;
-                                continue;
-                            }
-                            Err(Reject::Invalid(why)) => {
-                                st.rejected_invalid += 1;
-                                if st.rejected_invalid_example.is_none() {
-                                    st.rejected_invalid_example = Some(format!("{}: {:?}", why, desc));
-                                }
-                                continue;
-                            }
-                        };
-                        let mut obs = Obs::default();
-                        let r = check(&case, &mut obs);
-                        st.record(&case, obs, if b == 0 { 1 } else { 0 });
+                        let mut e = (plan.eval)(&desc, b == 0);
+                        let r = std::mem::replace(&mut e.result, Ok(()));
+                        let digest = e.digest;
+                        st.record_eval(e, if b == 0 { 1 } else { 0 });
                         if let Err(f) = r {
-                            let path = write_replay(id, &case, &f, json!({ "space": label, "index": i }));
+                            let mut v = (plan.replay)(&desc, &f);
+                            if let Value::Object(_) = v {
+                                v["space"] = json!(label);
+                                v["index"] = json!(i);
+                            }
+                            let path = write_replay_value(id, digest, v, &f);
                             found.lock().unwrap().push(Violation { replay: path, clause: f.clause, detail: f.detail });
                             stop.store(true, Ordering::SeqCst);
                             break;
@@ -373,4 +442,15 @@ pub fn run_indexed(id: &str, label: &str, total: u64, make: &(dyn Fn(u64) -> Opt
     if exhaustive {
         stats.exhaustive_parts.push(json!({ "space": label, "size": total, "evaluated": stats.evaluations - before, "complete": complete }));
     }
+}
+
+pub fn run_indexed(id: &str, label: &str, total: u64, make: &(dyn Fn(u64) -> Option<CaseDesc> + Sync), want_c: bool, check: &CheckFn, stats: &mut Stats, violations: &mut Vec<Violation>, exhaustive: bool) {
+    let plan: Plan<CaseDesc> = Plan {
+        name: "indexed",
+        cases: total,
+        strategy: Box::new(|| unreachable!()),
+        eval: Box::new(move |d: &CaseDesc, s: bool| eval_case(d, want_c, check, s)),
+        replay: Box::new(move |d: &CaseDesc, _f: &Failure| replay_case(d, want_c)),
+    };
+    run_indexed_g(id, label, total, make, &plan, stats, violations, exhaustive);
 }
